@@ -65,8 +65,7 @@ Notation fnode := (node fleaf).
 Section Run.
   Variable orc : oracle.
   Variable vt : vtable.
-  Let build_val := build_val fleaf (cf_default orc) fl_callable.
-  Let at_path := at_path fleaf (cf_validate orc) (cf_to_python orc) (cf_default orc) fl_callable fl_flag (vrun vt).
+  Let build_val := build_val fleaf (cf_validate orc) (cf_to_python orc) (cf_default orc) fl_callable fl_flag (vrun vt).
 
   (* Config(schema, **kw): keywords through _set_value on the still empty configuration, then defaults *)
   Fixpoint cf_ctor_kw (kw : list (str * pyval)) (w : world) (c : cfg) (dynamic : bool) (fs : list (str * fnode)) : world * cfg * oc :=
@@ -108,20 +107,21 @@ Section Run.
   Definition cf_step_obs (root root' : cfg) (o : oc) : pyval :=
     PTuple [o_oc o; diff_snap (o_cfg' root) (o_cfg' root'); same_ids (ids_cfg [] root) (ids_cfg [] root')].
 
-  Fixpoint cf_run_ops (ops : list (list pstep * cop)) (w : world) (root : cfg) (dynamic : bool) (vs : list N) (fs : list (str * fnode))
-    : list pyval :=
+  Fixpoint cf_run_ops (ops : list (list pstep * xop fleaf)) (w : world) (last : kept fleaf) (root : cfg) (dynamic : bool) (vs : list N)
+           (fs : list (str * fnode)) : list pyval :=
     match ops with
     | [] => []
     | (ps, o) :: r =>
-        let '(w1, root', oc1) := at_path ps w [] root dynamic vs fs o in
-        cf_step_obs root root' oc1 :: cf_run_ops r w1 root' dynamic vs fs
+        let '(w1, last1, root', oc1) :=
+          at_path_xs fleaf (cf_validate orc) (cf_to_python orc) (cf_default orc) fl_callable fl_flag (vrun vt) ps w last [] root dynamic vs fs o in
+        cf_step_obs root root' oc1 :: cf_run_ops r w1 last1 root' dynamic vs fs
     end.
 End Run.
 
 (* stream `configfields`: (regex table, validator table, root dynamic?, root validators, schema, constructor keywords,
    history, observation of the implementation for cases flagged as possibly outside the model) *)
 Definition cfcase := (list (str * str * bool) * vtable * bool * list N * list (str * fnode) * list (str * pyval)
-                      * list (list pstep * cop) * option pyval)%type.
+                      * list (list pstep * xop fleaf) * option pyval)%type.
 
 (* does the model's observation mention Unmodelled anywhere (outcome of a step, or of the constructor) *)
 Definition obs_unmodelled (o : pyval) : bool :=
@@ -138,7 +138,7 @@ Definition run_configfields (c : cfcase) : pyval :=
   let orc := table_oracle tbl in
   let obs :=
     match cf_ctor orc vt w0 dynamic fs kw with
-    | (w1, root, OOk) => PTuple [o_str "ok"; o_cfg' root; PList 0 (cf_run_ops orc vt ops w1 root dynamic vs fs)]
+    | (w1, root, OOk) => PTuple [o_str "ok"; o_cfg' root; PList 0 (cf_run_ops orc vt ops w1 None root dynamic vs fs)]
     | (_, _, o) => PTuple [o_oc o]
     end in
   match um with
